@@ -47,6 +47,7 @@ func main() {
 		c.Level = ch.Level
 		c.HR = os.Getenv("VERIF_HR")
 		c.HRAlt = os.Getenv("VERIF_HR_ALT")
+		c.HRRace = os.Getenv("VERIF_HR_RACE")
 		c.Work = os.Getenv("VERIF_WORK")
 		if c.Work == "" {
 			c.Work = core.Root + "/.work/" + ch.ID
